@@ -1,5 +1,5 @@
 (* P19 - part 15: concrete runs (vm_compute): non-vacuity examples and the witnesses of the two statements that are false. *)
-From LLB Require Import Engine.Rules Engine.Spec Engine.Exec Engine.Impl.
+From LLB Require Import Engine.Rules Engine.Spec Engine.Exec Engine.Impl Engine.ImplProofs Engine.ImplProofsLoop Engine.ImplProofsRun.
 From LLB Require Engine.FindCycle.
 Local Open Scope N_scope.
 
@@ -93,15 +93,70 @@ Example repaired_reports_stall :
   end.
 Proof. vm_compute. repeat split; reflexivity. Qed.
 
-(* the two statements in existential form (Props/Properties_impl.v) *)
+Definition w1_state := final_state (fst runW1).
+Lemma w1_eq : fst (ibuild Rw1 Ew1 mixF ord0 all_sync 200 200 init_istate 4 []) = RCycle w1_state [(5, 5)] (FindCycle.FcDone []).
+Proof. vm_compute. reflexivity. Qed.
 Theorem stall_no_dead_end_refuted :
   exists rules env root s g, fst (ibuild rules env mixF ord0 all_sync 200 200 init_istate root []) = RCycle s g (FindCycle.FcDone [])
                              /\ ~ FindCycle.no_dead_end g root.
+Proof. exists Rw1, Ew1, 4, w1_state, [(5, 5)]. split; [exact w1_eq|exact dead_end_graph]. Qed.
+
+Lemma quiescent_init : quiescent init_istate.
+Proof. unfold quiescent. cbn. repeat split; auto; try constructor; discriminate. Qed.
+
+Definition first_run := ibuild Rw2 Ew2 mixF ord0 all_sync 200 200 init_istate 2 [].
+Lemma first_run_eq : first_run = (RDone w2_after_first, snd first_run).
+Proof. vm_compute. reflexivity. Qed.
+Lemma first_run_nf : is_fault w2_after_first = None.
+Proof. vm_compute. reflexivity. Qed.
+Lemma w2_after_first_quiescent : quiescent w2_after_first.
 Proof.
-  exists Rw1, Ew1, 4.
-  pose proof stall_dead_end_witness as H. unfold runW1 in H.
-  destruct (fst (ibuild Rw1 Ew1 mixF ord0 all_sync 200 200 init_istate 4 [])) as [|s g c| |]; try contradiction.
-  destruct c as [l|]; [|contradiction]. destruct H as (Hg & Hl & _). subst g l.
-  exists s, [(5, 5)]. split; [reflexivity|apply dead_end_graph].
+  apply (build_done_quiescent Rw2 Ew2 mixF ord0 all_sync 200%nat 200%nat init_istate 2 [] w2_after_first (snd first_run)).
+  - exact quiescent_init.
+  - vm_compute. reflexivity.
+  - vm_compute. reflexivity.
 Qed.
 
+Definition w2_final := final_state (fst runW2_v0).
+Lemma w2_done : fst (ibuild_v0 Rw2 Ew2 mixF ord0 all_sync 200 200 w2_after_first 5 []) = RDone w2_final.
+Proof. vm_compute. reflexivity. Qed.
+Lemma w2_final_scanning : kind_of w2_final 2 = KScanning.
+Proof. vm_compute. reflexivity. Qed.
+
+Theorem done_quiescent_v0_refuted_ex :
+  exists rules env s0 root s, quiescent s0 /\ fst (ibuild_v0 rules env mixF ord0 all_sync 200 200 s0 root []) = RDone s /\ ~ quiescent s.
+Proof.
+  exists Rw2, Ew2, w2_after_first, 5, w2_final. split; [exact w2_after_first_quiescent|]. split; [exact w2_done|].
+  intros (_ & _ & _ & _ & _ & _ & _ & _ & Q). destruct (Q 2) as (Hq & _). apply Hq. exact w2_final_scanning.
+Qed.
+
+(* ---------- non-vacuity of [in_build] and of the stall theorem ---------- *)
+Definition st0 := start_build (iemit (bump init_istate) (EBuildStart 5)) 5.
+Definition st1 := fst (loop_iteration R6 E6 mixF ord6 none_sync 100 st0 []).
+(* after the first iteration of the 6-rule build (no task completes by itself): six tasks exist, two are computing, four wait *)
+Example in_build_nonvacuous :
+  in_build R6 E6 mixF ord6 none_sync init_istate 5 st1 /\ length (is_tasks st1) = 6%nat /\ is_outstanding st1 = 2%nat /\
+  map (fun e => ti_wait (snd e)) (is_tasks st1) = [1; 3; 0; 2; 2; 0]%nat.
+Proof.
+  split; [split; [exact quiescent_init|]|vm_compute; repeat split; reflexivity].
+  apply (loop_iteration_msteps R6 E6 mixF ord6 none_sync stall_test 100 st0 []). vm_compute. reflexivity.
+Qed.
+
+(* a static cycle 1 -> 2 -> 1: the engine stalls with the requested key unfinished and reports the cycle 1 2 1 *)
+Definition Rc : key -> rule := rules_of [(1, mkRule 0 false [2] [] [] None []); (2, mkRule 0 false [1] [] [] None [])].
+Definition runCyc := ibuild Rc (env_of []) mixF ord0 all_sync 100 100 init_istate 1 [].
+Example stall_nonvacuous :
+  match fst runCyc with
+  | RCycle s g (FindCycle.FcDone l) => g = [(1, 2); (2, 1)] /\ l = [1; 2; 1] /\ any_scanning s = false /\ is_tasks s = []
+  | _ => False
+  end.
+Proof. vm_compute. repeat split; reflexivity. Qed.
+
+(* ---------- (stretch, instances only) the values of the small-step engine are those of the big-step specification ---------- *)
+Definition spec_values : list (option value) :=
+  match Spec.build R6 E6 mixF (fun _ _ l => l) 50 Spec.init_state 5 with
+  | Spec.Ok s => map (fun k => Spec.result_of s k) [0; 1; 2; 3; 4; 5]
+  | _ => []
+  end.
+Example refines_spec_values_instance : values_of runA = spec_values /\ values_of runB = spec_values /\ values_of runC = spec_values.
+Proof. vm_compute. repeat split; reflexivity. Qed.
